@@ -74,8 +74,9 @@ def run_group(scratch, crate, harnesses, cbmc_args, jobs, timeout, tag, tdir_tag
     tdir = os.path.join(scratch, f"target-{tdir_tag or crate}")
     cmd = ["cargo", "kani"] + KANI_FLAGS + ["--target-dir", tdir, "-j", str(jobs), "--output-format=terse",
                                             "--harness-timeout", f"{timeout}s", "--export-json", out_json]
+    cmd += ["--exact"]
     for h in harnesses:
-        cmd += ["--harness", h.name]
+        cmd += ["--harness", h.qual]
     if cbmc_args:
         cmd += ["--cbmc-args"] + cbmc_args.split()
     t0 = time.time()
@@ -101,9 +102,9 @@ def run_group(scratch, crate, harnesses, cbmc_args, jobs, timeout, tag, tdir_tag
 def codegen_only(scratch, tdir_tag, crate, harnesses):
     cwd = os.path.join(scratch, "core") if crate == "core" else scratch
     tdir = os.path.join(scratch, f"target-{tdir_tag}")
-    cmd = ["cargo", "kani"] + KANI_FLAGS + ["--target-dir", tdir, "--only-codegen"]
+    cmd = ["cargo", "kani"] + KANI_FLAGS + ["--target-dir", tdir, "--only-codegen", "--exact"]
     for h in harnesses:
-        cmd += ["--harness", h.name]
+        cmd += ["--harness", h.qual]
     p = subprocess.run(cmd, cwd=cwd, env=ENV, stdout=subprocess.PIPE, stderr=subprocess.STDOUT, text=True, timeout=1800)
     return p.returncode, p.stdout
 
@@ -246,7 +247,7 @@ def playback(scratch, h, timeout=300):
     cwd = os.path.join(scratch, "core") if h.crate == "core" else scratch
     tdir = os.path.join(scratch, f"target-{h.crate}-pb")
     cmd = ["cargo", "kani"] + KANI_FLAGS + ["-Z", "concrete-playback", "--concrete-playback=print", "--target-dir", tdir,
-                                            "--harness", h.name, "--harness-timeout", f"{timeout}s"]
+                                            "--exact", "--harness", h.qual, "--harness-timeout", f"{timeout}s"]
     if h.cbmc:
         cmd += ["--cbmc-args"] + h.cbmc.split()
     out = {"cmd": " ".join(cmd), "tests": [], "native": None}
